@@ -26,6 +26,12 @@ def rankAvg (xs : List Rat) (x : Rat) : Rat :=
 def ampFraction (voltAmp : List Rat) : List Rat :=
   voltAmp.map fun x => rankAvg voltAmp x / (voltAmp.length : Rat)
 
+/-- the same with UNDEFINED (NaN) amplitudes in the table: `Series.rank()` ranks the defined values among themselves and keeps NaN,
+the divisor stays the number of cycles (rows) of the table. -/
+def ampFractionN (voltAmp : List (Option Rat)) : List (Option Rat) :=
+  let defined := voltAmp.filterMap id
+  voltAmp.map fun x => x.map fun v => rankAvg defined v / (voltAmp.length : Rat)
+
 /-- `compute_amp_consistency(df, direction)`; `peakCentred` is `'sample_peak' in df.columns`. -/
 def ampConsistency (peakCentred : Bool) (dir : Direction) (rises decays : List Rat) : Except Err (List F) :=
   let n := rises.length
